@@ -6,6 +6,7 @@ import (
 	"encoding/json"
 	"testing"
 
+	"github.com/go-openapi/spec"
 	"pgregory.net/rapid"
 
 	"verif/gen"
@@ -16,6 +17,9 @@ import (
 type c10Case struct {
 	Graph gen.GraphCase `json:"graph"`
 	Calls []elemCall    `json:"calls"`
+	// Other, when set, is another root (same location, other content): every root-based call is preceded by
+	// a call on Other with the same caller-supplied cache - the result must still be the one for Graph's root.
+	Other *gen.GraphCase `json:"other,omitempty"`
 }
 
 var rootBased = map[string]bool{"ExpandSchema": true, "ExpandParameterWithRoot": true, "ExpandResponseWithRoot": true}
@@ -50,8 +54,21 @@ func oracleC10(c c10Case) (*vstat.Failure, int) {
 	f := &vstat.Failure{}
 	gin := c.Graph.Graph()
 	reached := 0
-	for _, call := range c.Calls {
-		run := runElem(c.Graph, call, nil, nil)
+	var otherCalls []elemCall
+	if c.Other != nil {
+		otherCalls = callsFor(c.Other.Graph(), c.Other.Root, true)
+	}
+	for ci, call := range c.Calls {
+		var cache spec.ResolutionCache
+		if c.Other != nil && rootBased[call.Entry] && call.Root != "preloaded" && len(otherCalls) > 0 {
+			// a pre-filled cache: it has just served an expansion against another root
+			lc := newLogCache()
+			oc := otherCalls[ci%len(otherCalls)]
+			oc.Root = call.Root
+			_ = runElem(*c.Other, oc, lc, nil)
+			cache = lc
+		}
+		run := runElem(c.Graph, call, cache, nil)
 		where := call.Entry + "(" + call.Root + ") " + call.Elem
 		switch {
 		case run.NotUsable != "":
@@ -93,6 +110,18 @@ func genC10(t *rapid.T) c10Case {
 	}
 	g := gen.Graph(t, o)
 	mg := g.Graph()
+	var other *gen.GraphCase
+	if rootOnly && gen.Pct(t, "prefilled-cache", 40) {
+		o2 := o
+		o2.LabelPrefix = "other-"
+		// the other root lives in memory only and refers to nothing but itself: the one thing the two
+		// expansions share is the cache (and in it the pseudo location of an in-memory root)
+		o2.MaxDocs = 1
+		o2.OnlyFragAbs = false
+		o2.Spell = gen.SpellFragment
+		og := gen.Graph(t, o2)
+		other = &og
+	}
 	calls := callsFor(mg, g.Root, false)
 	if !rootOnly {
 		// multi-document graphs with relative $refs: only the base-location entry points apply
@@ -104,7 +133,7 @@ func genC10(t *rapid.T) c10Case {
 		}
 		calls = kept
 	}
-	return c10Case{Graph: g, Calls: calls}
+	return c10Case{Graph: g, Calls: calls, Other: other}
 }
 
 func TestC10(t *testing.T) {
@@ -120,6 +149,7 @@ func TestC10(t *testing.T) {
 		}
 		r.LabelIf(cl.Cyclic, "cyclic")
 		r.LabelIf(cl.NDocs > 1, "multi-document")
+		r.LabelIf(c.Other != nil, "cache pre-filled by an expansion against another root")
 		if reached > 0 {
 			r.NonTrivial(mustJSON(c), c)
 		}
